@@ -106,6 +106,16 @@ def select(ctx, confs, rng):
                     and c["scripts"][-1][0]["op"].startswith("image.copy") and (len(c["scripts"]) == 2 or c["par"] == 2) \
                     and c["tmo"] in ("default", "none" if c["par"] == 1 else "default"):
                 chosen[i] = True
+    # every way of aborting (error of a string / table / number / ..., runtime fault, stack overflow) in
+    # front of another script: sequential, parallel 1, parallel 2, and under `regbot server`
+    seen = set()
+    for i, c in enumerate(confs):
+        if len(c["scripts"]) > 1 and c["tmo"] == "default" and len(c["scripts"][0]) == 1 and c["scripts"][0][0]["op"].startswith("error") \
+                and c["scripts"][-1][0]["op"].startswith("image.copy"):
+            key = (c["scripts"][0][0]["op"], c["par"], c["cmd"])
+            if key not in seen:
+                seen.add(key)
+                chosen[i] = True
     return [confs[i] for i in sorted(chosen)]
 
 
@@ -122,8 +132,7 @@ def expected_abs(exp, nscripts):
             continue
         if o["st"] == "err":
             st = "err"
-            if o["op"] != "error":
-                vals = vals + ["err"]
+            vals = vals + ["err"]
         else:
             if st != "err":
                 st = "ok"
@@ -185,7 +194,8 @@ def signature(r, conf):
         mode = detail.split(":")[1]
         end = ev.get("dry" if mode == "dry" else "nor", "?")
         if end != "failed":
-            return "%s:%s" % (detail, end)
+            crashed = any(e["ev"] == "run" and e["run"] == mode and e.get("crash") for e in r["trace"]["events"])
+            return "%s:%s%s" % (detail, end, ":regbot-crashed" if crashed else "")
         s = ev.get("s", 1)
         failed = sorted({e["op"] for e in r["trace"]["events"]
                          if e["ev"] == "stmt" and e["s"] != s and (e["dryst"] if mode == "dry" else e["norst"]) == "err"})
@@ -476,6 +486,7 @@ def run(ctx):
     nstmt = sum(1 for t in traces for e in t["events"] if e["ev"] == "stmt")
     compared = sum(1 for t in traces for e in t["events"] if e["ev"] == "stmt" and e["dryst"] != "norun" and e["norst"] != "norun"
                    and (e["wprior"] == 0))
+    crashes = sum(1 for t in traces for e in t["events"] if e["ev"] == "run" and e.get("crash"))
     tarouts = sum(1 for t in traces for e in t["events"] if e["ev"] == "run" and e["run"] == "dry" and e["tarout"] == 1)
     solo_runs = sum(1 for t in traces for e in t["events"] if e["ev"] == "script" and (e["solodry"] != "na" or e["solonor"] != "na"))
     fams = {}
@@ -500,7 +511,7 @@ def run(ctx):
         "dimension_values_run": {d: sorted({(c["wname"] if d == "world" else c[d]) for c in sel}) for d in ("world", "mt", "feat", "tmo", "cmd")},
         "api_functions": sorted(all_ops), "requests_seen_in_dry_runs": nreq, "statements": nstmt,
         "read_results_compared": compared, "solo_control_runs": solo_runs,
-        "dry_runs_that_wrote_the_export_tar": tarouts,
+        "dry_runs_that_wrote_the_export_tar": tarouts, "runs_in_which_regbot_crashed": crashes,
         "asfound_counterexample_ops": cex_ops,
         "sandbox_bindings_found": bindings, "sandbox_bindings_gone": gone,
         "model_drift": drift, "model_drift_samples": drift_samples,
